@@ -223,10 +223,14 @@ impl WebSocketClient {
         if let Some(existing) = slot.as_ref()
             && !existing.is_closed()
         {
+            #[cfg(feature = "verif-hooks")]
+            crate::verif::ev("\"ev\":\"ns_sub\",\"ok\":false".to_string());
             return Err(AlreadySubscribed);
         }
         let (tx, rx) = mpsc::unbounded_channel();
         *slot = Some(tx);
+        #[cfg(feature = "verif-hooks")]
+        crate::verif::ev("\"ev\":\"ns_sub\",\"ok\":true".to_string());
         Ok(rx)
     }
 
@@ -751,11 +755,22 @@ fn spawn_response_loop(mut reader: WsReader, inner: std::sync::Weak<WebSocketCli
                 };
 
                 if response.header.notify != 0 {
+                    #[cfg(feature = "verif-hooks")]
+                    crate::verif::ev(format!(
+                        "\"ev\":\"ns_snap_begin\",\"n\":{}",
+                        response.header.id
+                    ));
                     let notify_tx = inner_ref
                         .notify_tx
                         .lock()
                         .expect("repe websocket notify_tx mutex poisoned")
                         .clone();
+                    #[cfg(feature = "verif-hooks")]
+                    crate::verif::ev(format!(
+                        "\"ev\":\"ns_snap_end\",\"n\":{},\"has\":{}",
+                        response.header.id,
+                        notify_tx.is_some()
+                    ));
                     match notify_tx {
                         Some(sender) => PendingDispatch::Notify { sender, response },
                         None => PendingDispatch::DroppedNotify,
@@ -788,9 +803,15 @@ fn spawn_response_loop(mut reader: WsReader, inner: std::sync::Weak<WebSocketCli
                     // have replaced the slot between our send attempt
                     // and the lock reacquire; clearing unconditionally
                     // would null out that fresh subscription.
+                    #[cfg(feature = "verif-hooks")]
+                    let vh_n = response.header.id;
+                    #[cfg(feature = "verif-hooks")]
+                    crate::verif::probe_async("ns_before_send").await;
                     if sender.send(response).is_err()
                         && let Some(inner_ref) = inner.upgrade()
                     {
+                        #[cfg(feature = "verif-hooks")]
+                        crate::verif::probe_async("ns_after_failed_send").await;
                         let mut slot = inner_ref
                             .notify_tx
                             .lock()
@@ -802,6 +823,10 @@ fn spawn_response_loop(mut reader: WsReader, inner: std::sync::Weak<WebSocketCli
                         if stale {
                             *slot = None;
                         }
+                        #[cfg(feature = "verif-hooks")]
+                        crate::verif::ev(format!(
+                            "\"ev\":\"ns_sendfail\",\"n\":{vh_n},\"cleared\":{stale}"
+                        ));
                     }
                 }
                 PendingDispatch::DroppedNotify => {
@@ -867,11 +892,15 @@ async fn fail_all_pending(inner: &std::sync::Weak<WebSocketClientInner>, err: Re
 /// to leave lying around. `notify_slot::unsubscribe` keeps the same discipline
 /// on the wasm side, where the equivalent bug is a live `RefCell` panic.
 fn take_notify_sender(inner: &Arc<WebSocketClientInner>) {
+    #[cfg(feature = "verif-hooks")]
+    crate::verif::ev("\"ev\":\"ns_unsub_begin\"".to_string());
     let previous = inner
         .notify_tx
         .lock()
         .expect("repe websocket notify_tx mutex poisoned")
         .take();
+    #[cfg(feature = "verif-hooks")]
+    crate::verif::ev("\"ev\":\"ns_unsub_end\"".to_string());
     drop(previous);
 }
 
